@@ -47,6 +47,23 @@ CLAIMS = {
         "(unwinding assertions on). Found and fixed a genuine defect (multi-proof verify panics), see known_findings.txt.",
    note="HavocHash over-approximates every hasher for verify/confirm. Multi-proofs with >= 2 paths use a menu of boundary depths instead of a symbolic usize."),
 }
+PSMT = "bounded model checking with z3 over the MIR control/event structure of the real orchestration functions (engine P)"
+for _i, _t, _n in [
+  ("C03", "Protocol order only: in the commit orchestration every pre-switch-over step of the merkle store completes before Meta::write is issued, every "
+          "post-switch-over step is issued after it, and recovery never writes the hash table after discarding the redo log - for every control path of the real functions.",
+          "Does not decide that file contents decode to the old/new state, nor thread interleavings; beatree and rollback internals outside."),
+  ("C04", "The property's own 'equivalently' clause as an event order: writes are fsynced before success is reported / before the redo log is dropped, on every control "
+          "path of write_wal, write_ht, Meta::write, recover, Sync::sync. Found and fixed: recover truncated the WAL without fsyncing the hash table.",
+          "Bitbox + meta side only; beatree and seglog fsync discipline outside; torn sectors outside."),
+  ("C12", "On every control path of the four commit entry points the previous-root check precedes every effect. Found and fixed two genuine defects "
+          "(rollback delta appended / overlay marked committed before the check).", "Racing committers (schedules) outside."),
+  ("C14", "No fallible I/O value is dropped uninspected in the listed functions; Store::commit poisons before returning an error. Found and fixed: "
+          "write_ht ignored the result of every hash-table page write.", "Listed functions only; hangs and the beatree/rollback error paths outside."),
+  ("C17", "Bitbox side: before the switch-over only the WAL is written (no HT write, no WAL truncation) - every control path of the pre-meta functions.",
+          "Beatree allocation discipline and seglog pruning outside."),
+]:
+    CLAIMS[_i] = dict(cat="model_checking", engine="P", tech=PSMT, ref="DESIGN.md §4 " + _i, text=_t,
+                      note=_n + " Event recognition by callee name + source text under the MIR span; paths <= 120 basic blocks.")
 NA = {
  "C03": "Engine P (MIR path/event encoding of Sync::sync, recover, open) is not built in this revision; without it no solver decision over crash points exists here - not claimed.",
  "C04": "Needs engine P (fsync-before-switch-over ordering over the MIR of the sync path); not built in this revision - not claimed.",
@@ -84,6 +101,8 @@ m = {"version": 1, "setup_cmd": "python3 setup.py",
      "engines": [
         {"name": "K", "path": "/verif/engine_k.py", "serves_properties": sorted(i for i, c in CLAIMS.items() if "K" in c["engine"]),
          "kind_free_text": "Kani 0.68 / CBMC 6.11 bounded model checking of the real crates (path dependency on /repo, recompiled every run), per-loop unwinding classes with unwinding assertions, native replay of counterexamples through kani concrete playback"},
+        {"name": "P", "path": "/verif/mirsmt/pathsmt.py", "serves_properties": sorted(i for i, c in CLAIMS.items() if "P" in c["engine"]),
+         "kind_free_text": "z3 bounded model checking of the MIR control/event structure (path automaton with flags) of the I/O orchestration functions; counterexample paths replayed as concrete histories (API scenarios, strace syscall traces, injected write failures) against the real crate"},
         {"name": "M", "path": "/verif/engine_m.py", "serves_properties": sorted(i for i, c in CLAIMS.items() if "M" in c["engine"]),
          "kind_free_text": "rustc MIR (nightly -Zunpretty=mir, overflow checks on) of the real functions -> z3 (bit-vectors / integers with explicit overflow obligations), diffed against cvc5, translator validated against native runs, counterexamples replayed natively"}],
      "checks": checks, "not_applicable": na,
